@@ -304,6 +304,211 @@ def gen_universe(rng, depth=None, fams=FAMS, provider=None, content=True, big=Fa
 
 
 # ---------------------------------------------------------------------------------------------
+# richer shapes (C07), opt-in: nothing above changes, so the streams of the other properties
+# built on gen_universe keep their cases
+# ---------------------------------------------------------------------------------------------
+
+RETYPES = (A, TXT, AAAA, MX)
+
+
+def add_alias(u, name, target, ttl=120):
+    u.zones[u.zone_of(name)].rrs.append((name, CNAME, ttl, tok.rd_name(tok.name(target))))
+
+
+def alias_links(u, name, limit=50):
+    """number of CNAME links the authoritative data holds from `name` on"""
+    cm = u.cname_map()
+    k = 0
+    while name in cm and k < limit:
+        name = cm[name]
+        k += 1
+    return k
+
+
+def records_at(u, name):
+    z = u.zones.get(u.zone_of(name))
+    return [r for r in ([z.soa] + z.rrs if z else []) if r[0] == name]
+
+
+def add_hosted(rng, u, fams=FAMS, nshared=None, branch=None):
+    """Zones whose ONLY nameservers are names of another zone (hoster.), delegated WITHOUT glue, so that the
+    address of the nameserver is found by a nested resolution; several such zones share the nameserver
+    name(s), and alias chains run from one of them through a zone served by somebody else (mid.) into
+    another one (and back), so that one top-level resolution needs the same nameserver name twice.
+    -> the alias questions (name, links, what)"""
+    if nshared is None:
+        nshared = rng.choice([1, 1, 1, 2])
+    fam = rng.choice(fams)
+    u.add_zone("hoster.", ["ns1.hoster."])
+    u.add_host("ns1.hoster.", rng.choice(fams))
+    u.finish_zone("hoster.", ["ns1.hoster."])
+    shared = ["ns.hoster.", "nsb.hoster."][:nshared]
+    for h in shared:
+        u.add_host(h, fam)
+    u.add_zone("mid.", ["ns1.mid."])
+    u.add_host("ns1.mid.", rng.choice(fams))
+    u.finish_zone("mid.", ["ns1.mid."])
+    hosted = ["one.", "two."]
+    if branch is None:
+        branch = rng.random() < 0.5
+    if branch and u.chain:
+        # ... and one beside the deepest zone of the main chain: the shared name is needed at depth too
+        parent = u.chain[-1]
+        hosted.append("hosted." + parent)
+    for apex in hosted:
+        # (a second hosted zone may list only the first shared name)
+        hs = shared if apex == "one." or rng.random() < 0.6 else shared[:1]
+        u.add_zone(apex, hs)
+        u.finish_zone(apex, [])          # no glue anywhere: out-of-bailiwick names
+    one, two = "one.", "two."
+    z1, zm, z2 = u.zones[one], u.zones["mid."], u.zones[two]
+    z1.rrs += [("host.one.", A, 300, v4(0xC0000601)), ("txt.one.", TXT, 60, tok.rd_octets(b"\x03one"))]
+    z2.rrs += [("www.two.", A, 300, v4(0xC0000602)), ("www.two.", AAAA, 300, v6(0x20602))]
+    zm.rrs += [("host.mid.", A, 300, v4(0xC0000603))]
+    add_alias(u, "www.one.", "www.mid.")          # one. -> mid. -> two.
+    add_alias(u, "www.mid.", "www.two.")
+    add_alias(u, "rt.two.", "back.mid.")          # two. -> mid. -> one.
+    add_alias(u, "back.mid.", "host.one.")
+    add_alias(u, "again.one.", "back.mid.")       # one. -> mid. -> one.
+    add_alias(u, "far.one.", "far.mid.")          # one. -> mid. -> two. -> mid. -> one.
+    add_alias(u, "far.mid.", "rt.two.")
+    qs = [("www.one.", A, "hosted-chain"), ("rt.two.", A, "hosted-chain"), ("again.one.", A, "hosted-chain"),
+          ("far.one.", A, "hosted-chain"), ("www.one.", AAAA, "hosted-chain"), ("www.one.", TXT, "hosted-chain-nodata"),
+          ("www.mid.", A, "hosted-tail"), ("host.one.", A, "hosted-plain"), ("www.two.", A, "hosted-plain"),
+          ("txt.one.", TXT, "hosted-plain"), ("nx.two.", A, "hosted-nx")]
+    starts = [("www.one.", 2), ("rt.two.", 2), ("again.one.", 2), ("far.one.", 4)]
+    for apex in hosted[2:]:
+        u.zones[apex].rrs.append(("www." + apex, A, 300, v4(0xC0000604)))
+        add_alias(u, "via." + apex, "www.mid.")   # <deep hosted zone> -> mid. -> two.
+        add_alias(u, "in.mid.", "www." + apex)    # mid. -> <deep hosted zone>
+        add_alias(u, "out.two.", "in.mid.")       # two. -> mid. -> <deep hosted zone>
+        qs += [("via." + apex, A, "hosted-chain"), ("out.two.", A, "hosted-chain"), ("www." + apex, A, "hosted-plain")]
+        starts += [("via." + apex, 2), ("out.two.", 2)]
+    for apex in u.chain[-2:]:
+        # from the ordinary zones into the hosted ones
+        add_alias(u, "h." + apex, "www.one.")
+        qs.append(("h." + apex, A, "hosted-chain"))
+        starts.append(("h." + apex, 3))
+    for apex in hosted + ["mid.", "hoster."]:
+        for t in RETYPES:
+            qs.append((apex, t, "apex-nodata"))
+    for h in shared + ["ns1.hoster.", "ns1.mid."]:
+        qs += [(h, A, "host"), (h, AAAA, "host")]
+    u.questions += qs
+    u.hosted = hosted
+    u.hosted_starts = starts
+    return starts
+
+
+def enrich_universe(rng, u, fams=FAMS, hosted=None):
+    """More of what C07's sentence lists, on top of gen_universe(content=True):
+      aliases   chains of 2..4 CNAME links inside a zone, child -> parent zone, parent -> child zone, out to the
+                second branch and back, ending at an existing name, a name with other types only, a missing name
+                (u.aliases: (name, links) of every alias with >= 2 links)
+      apexes    questions for types that exist / do not exist AT zone apexes at every depth, the root and the
+                provider zones included (u.apex_questions)
+      hosted    add_hosted (u.hosted_starts)"""
+    zs = list(u.chain) + ([u.other] if u.other else [])
+    aliases = []
+    for i, apex in enumerate(zs):
+        add_alias(u, "c3." + apex, "chain." + apex)                # c3 -> chain -> alias -> www
+        add_alias(u, "ctxt." + apex, "atxt." + apex)               # ... -> txt.: TXT exists, A does not
+        add_alias(u, "atxt." + apex, "txt." + apex)
+        aliases += [("chain." + apex, 2), ("c3." + apex, 3), ("ctxt." + apex, 2)]
+        u.questions += [("c3." + apex, A, "cname3"), ("ctxt." + apex, TXT, "cname2"), ("ctxt." + apex, A, "cname2-nodata"),
+                        ("chain." + apex, TXT, "cname2-nodata"), ("c3." + apex, MX, "cname3-nodata")]
+        if 0 < i < len(u.chain):
+            parent = u.chain[i - 1]
+            add_alias(u, "up." + apex, "alias." + parent)          # child zone -> parent zone, 2 links
+            add_alias(u, "down-%d.%s" % (i, parent), "chain." + apex)   # parent zone -> child zone, 3 links
+            aliases += [("up." + apex, 2), ("down-%d.%s" % (i, parent), 3)]
+            u.questions += [("up." + apex, A, "xcname2"), ("down-%d.%s" % (i, parent), A, "xcname3"),
+                            ("up." + apex, TXT, "xcname2-nodata")]
+        if u.other and apex != u.other:
+            add_alias(u, "bounce." + apex, "b%d.%s" % (i, u.other))      # leaves the zone and comes back
+            add_alias(u, "b%d.%s" % (i, u.other), "www." + apex)
+            add_alias(u, "c2nx." + apex, "extnx." + apex)          # two links, then a missing name elsewhere
+            aliases += [("bounce." + apex, 2), ("ext2." + apex, 3), ("c2nx." + apex, 2)]
+            u.questions += [("bounce." + apex, A, "xcname2"), ("c2nx." + apex, A, "xcname2-nx"), ("bounce." + apex, MX, "xcname2-nodata")]
+    # apexes: a few get records of other types than SOA / NS
+    apexq = []
+    for apex in list(u.zones):
+        z = u.zones[apex]
+        if apex in zs and rng.random() < 0.3:
+            t = rng.choice([A, MX, TXT])
+            d = {A: v4(0xC0000700 + rng.randint(1, 200)), MX: tok.rd_mx(5, tok.name("mail." + apex)), TXT: tok.rd_octets(b"\x04apex")}[t]
+            z.rrs.append((apex, t, 300, d))
+        have = {r[1] for r in z.rrs if r[0] == apex}
+        for t in RETYPES:
+            apexq.append((apex, t, "apex-pos" if t in have else "apex-nodata"))
+    u.questions += apexq
+    u.apex_questions = apexq
+    u.aliases = aliases
+    u.hosted, u.hosted_starts = [], []
+    if hosted is None:
+        hosted = rng.random() < 0.3
+    if hosted:
+        add_hosted(rng, u, fams)
+        for (apex, t, what) in u.questions:
+            if what.startswith("apex") and apex in u.hosted + ["mid.", "hoster."] and (apex, t, what) not in u.apex_questions:
+                u.apex_questions.append((apex, t, what))
+        u.aliases += [(n, k) for n, k in u.hosted_starts]
+    return u
+
+
+def retype_sequence(rng, u, k=None):
+    """questions sharing one cache: an alias with >= 2 links asked for one type, then THE SAME alias for other types
+    (the links are cached by then, the record set at the end of the chain is not), in both orders of
+    existing / missing type; now and then an unrelated question in between"""
+    name, links = rng.choice(u.aliases)
+    types = list(RETYPES)
+    rng.shuffle(types)
+    if rng.random() < 0.6:
+        types.remove(A)
+        types.insert(rng.choice([0, 0, 1]), A)
+    qs = [(name, t) for t in types[:k or rng.choice([2, 2, 3, 4])]]
+    if rng.random() < 0.3:
+        a, b, _ = rng.choice(u.questions)
+        qs.insert(rng.randint(1, len(qs) - 1), (a, b))
+    if rng.random() < 0.3:
+        # a longer alias passing through the same links afterwards
+        longer = [n for n, l in u.aliases if l > links and n.split(".", 1)[1] == name.split(".", 1)[1]]
+        if longer:
+            qs.append((rng.choice(longer), rng.choice(RETYPES)))
+    return qs, links
+
+
+def apex_sequence(rng, u):
+    """missing (and a few existing) types asked AT zone apexes: cold, and after a question that left the zone's
+    nameservers in the cache"""
+    nod = [q for q in u.apex_questions if q[2] == "apex-nodata"]
+    qs = []
+    for _ in range(rng.choice([1, 2, 3])):
+        apex, t, _w = rng.choice(nod)
+        if rng.random() < 0.4 and apex in u.chain:
+            qs.append(("www." + apex, A))              # warm: the delegation in use comes from the cache
+        qs.append((apex, t))
+    if rng.random() < 0.4:
+        apex, t, _w = rng.choice(u.apex_questions)
+        qs.append((apex, t))
+    return qs
+
+
+def hosted_sequence(rng, u):
+    """the alias through the hosted zones first (cold cache: the shared nameserver name is resolved by a nested
+    resolution), then more of them"""
+    starts = list(u.hosted_starts)
+    rng.shuffle(starts)
+    qs = [(starts[0][0], rng.choice([A, A, A, AAAA, TXT]))]
+    for n, _k in starts[1:rng.choice([1, 1, 2, 3])]:
+        qs.append((n, rng.choice(RETYPES)))
+    if rng.random() < 0.3:
+        a, b, _ = rng.choice(u.questions)
+        qs.append((a, b))
+    return qs
+
+
+# ---------------------------------------------------------------------------------------------
 # inconsistent universes (C08): the faults that live in the universe itself
 # ---------------------------------------------------------------------------------------------
 
@@ -335,6 +540,13 @@ def mutate_universe(rng, u, what):
         z.rrs.append(("loop1." + target, CNAME, 60, tok.rd_name(tok.name("loop2." + target))))
         z.rrs.append(("loop2." + target, CNAME, 60, tok.rd_name(tok.name("loop1." + target))))
         u.questions.append(("loop1." + target, A, "aliasloop"))
+        # cycles that do NOT pass through the question name, and a self-loop reached through an alias
+        z.rrs.append(("intoloop." + target, CNAME, 60, tok.rd_name(tok.name("loop1." + target))))
+        z.rrs.append(("selfloop." + target, CNAME, 60, tok.rd_name(tok.name("selfloop." + target))))
+        z.rrs.append(("intoself." + target, CNAME, 60, tok.rd_name(tok.name("selfloop." + target))))
+        u.questions.append(("intoloop." + target, A, "aliasloop"))
+        u.questions.append(("intoself." + target, A, "aliasloop"))
+        u.questions.append(("selfloop." + target, A, "aliasloop"))
         if u.other:
             z.rrs.append(("xloop." + target, CNAME, 60, tok.rd_name(tok.name("xloop." + u.other))))
             u.zones[u.other].rrs.append(("xloop." + u.other, CNAME, 60, tok.rd_name(tok.name("xloop." + target))))
@@ -456,6 +668,8 @@ class Batch:
 class CaseBuilder:
     """one case under construction: universe -> table + expectations -> case line"""
 
+    table_prefix = ()      # (class default: subclasses with their own __init__ need not know about it)
+
     def __init__(self, batch, u, mode, port, questions, faults="_", zones=None, cache="_", flags=None,
                  extra_servers=None, forwarder_ip=None):
         self.u, self.mode, self.port, self.questions, self.faults = u, mode, port, questions, faults
@@ -467,6 +681,9 @@ class CaseBuilder:
             # a forwarder answers like a server that holds every zone of the universe
             self.extra[forwarder_ip] = list(u.zones)
         self.utok = u.token(self.extra)
+        # table entries put BEFORE the ones computed by SERVE (the first entry for an (address, question) wins on
+        # both sides): any reply bytes for any server, e.g. a doctored referral -- "<ip>,<ip>=<question>=<hex>"
+        self.table_prefix = []
         ups = upstream_questions(u, questions)
         claims = claimed_apexes(u, self.extra)
         # group addresses that serve the same zones: they give the same replies
@@ -496,7 +713,10 @@ class CaseBuilder:
             hexes = outs[self.serve_idx].split(";")
             assert len(hexes) == len(self.entries)
             ents = ["%s=%s=%s" % (",".join(ips), qt, h) for (ips, qt), h in zip(self.entries, hexes) if h not in ("-", "!")]
+            ents = list(self.table_prefix) + ents
             table = "+".join(ents) if ents else "_"
+        elif self.table_prefix:
+            table = "+".join(self.table_prefix)
         auth = outs[self.auth_idx]
         flags = dict(self.flags)
         flags["cons"] = auth[1]
